@@ -56,6 +56,9 @@ func main() {
 	case "micro":
 		microMain()
 		return
+	case "launches":
+		launchesMain()
+		return
 	}
 	seed := flag.Uint64("seed", 1, "seed")
 	n := flag.Int("n", 100, "number of cases")
